@@ -170,7 +170,20 @@ pub fn gen_client_history(property: &str, seed: u64) -> ClientHistory {
                 }
             }
             _ => {
-                if next_c > 0 {
+                if next_c > 0 && r.chance(1, 3) {
+                    // the same notification twice at once, the tower treating the two requests differently
+                    let t = r.below(n_towers as u64) as u32;
+                    if r.chance(2, 3) {
+                        let a = if r.chance(1, 2) { Reply::Accept } else { bad_reply(&mut r, false) };
+                        let b = if r.chance(1, 2) { Reply::Accept } else { bad_reply(&mut r, false) };
+                        ops.push(COp::Script { t, replies: vec![a, b] });
+                    }
+                    if r.chance(1, 2) {
+                        ops.push(COp::Latency { t, ms: *r.pick(&[20u32, 500, 5000]) });
+                    }
+                    ops.push(COp::RevokeTwice { c: if r.chance(1, 2) { next_c } else { r.below(next_c as u64) as u32 } });
+                    next_c += 1;
+                } else if next_c > 0 {
                     ops.push(COp::Revoke { c: r.below(next_c as u64) as u32 });
                 }
             }
